@@ -607,6 +607,21 @@ func execC04(r *sim.Run) {
 		id := c.addSet(sb.Build(), "SetBuilder.Build", -1)
 		c.mb = &c04builder{addSet: func(k int) { sb.Add(k) }, product: id}
 	}
+	// the zero values route through fp's own UnsafeGoMap / UnsafeGoSet (not the immutable package); they are values the
+	// library hands out all the same, so "no call writes to memory reachable from a value it has previously returned" applies
+	if r.Choose(2, "zeroValues") == 1 {
+		zs := fp.Set[int]{}
+		for i := r.Choose(4, "zeroSetN"); i > 0; i-- {
+			zs = zs.Incl(r.Choose(12, "zk"))
+		}
+		c.addSet(zs, "zero Set + Incl", -1)
+		zm := fp.Map[int, int]{}
+		for i := r.Choose(4, "zeroMapN"); i > 0; i-- {
+			zm = zm.Updated(r.Choose(12, "zk"), 70+i)
+		}
+		c.addMap(zm, "zero Map + Updated", -1)
+		r.Probe("pool-has-zero-value-collections")
+	}
 	c.addList(list.Of(3, 1, 2), "list.Of", -1)
 	c.addList(list.Generate(func(i int) fp.Option[int] {
 		if i >= 4 {
